@@ -1,7 +1,9 @@
 package scn
 
 import (
+	"context"
 	"database/sql"
+	"errors"
 	"fmt"
 	"os"
 	"strconv"
@@ -10,6 +12,7 @@ import (
 	"time"
 
 	"github.com/benbjohnson/litestream"
+	"github.com/superfly/ltx"
 )
 
 // pinReader opens a second application connection and starts a read transaction on the current
@@ -177,4 +180,84 @@ func (r *runner) runApp(spec string) int {
 	}
 	os.Exit(0) // the application is still running / died: its connection is never closed, the WAL stays
 	return 0
+}
+
+// scRestoreSide: the restore side under the circumstances an operator leaves behind. Plain restore and
+// follow-mode restore (cancelled after the initial restore and a few polls), each with: no sidecar,
+// a stale `-txid` sidecar naming an older TXID, a stale sidecar naming exactly the TXID the restore
+// ends at (the operator deleted only the database), and a stale `-txid.tmp`.
+func (r *runner) scRestoreSide() {
+	if !r.opOpen() {
+		return
+	}
+	r.restoreHistory()
+	final := r.repTX()
+	older := uint64(1)
+	if len(r.acked) > 1 {
+		older = r.acked[len(r.acked)/2]
+	}
+	prepare := func(out, circ string) {
+		r.removeOutput(out)
+		r.hstep(func() {
+			switch circ {
+			case "older":
+				must(litestream.WriteTXIDFile(out, ltx.TXID(older)), "stale sidecar")
+			case "exact":
+				must(litestream.WriteTXIDFile(out, ltx.TXID(final)), "stale sidecar")
+			case "staletmp":
+				must(os.WriteFile(out+"-txid.tmp", []byte("00000000000000"), 0o644), "stale sidecar tmp")
+			}
+		})
+	}
+	for _, circ := range []string{"none", "older", "exact", "staletmp"} {
+		out := r.outPath("p-" + circ + ".db")
+		prepare(out, circ)
+		_, _ = r.op("restore", func() (uint64, error) {
+			opt := litestream.NewRestoreOptions()
+			opt.OutputPath = out
+			return final, r.db.Replica.Restore(r.ctx, opt)
+		})
+	}
+	for _, circ := range []string{"none", "older", "exact", "staletmp"} {
+		out := r.outPath("f-" + circ + ".db")
+		prepare(out, circ)
+		fctx, cancel := context.WithCancel(r.ctx)
+		done := make(chan error, 1)
+		n := r.begin("follow")
+		go func() {
+			opt := litestream.NewRestoreOptions()
+			opt.OutputPath = out
+			opt.Follow = true
+			opt.FollowInterval = 20 * time.Millisecond
+			done <- r.db.Replica.Restore(fctx, opt)
+		}()
+		var ferr error
+		returned := false
+		deadline := time.Now().Add(5 * time.Second)
+	wait:
+		for time.Now().Before(deadline) {
+			if _, err := os.Stat(out); err == nil {
+				if tx, err := litestream.ReadTXIDFile(out); err == nil && uint64(tx) >= final {
+					break
+				}
+			}
+			select {
+			case ferr = <-done:
+				returned = true
+				break wait
+			case <-time.After(10 * time.Millisecond):
+			}
+		}
+		if !returned {
+			time.Sleep(90 * time.Millisecond) // the follower polls a few times
+			cancel()
+			ferr = <-done
+		}
+		cancel()
+		if errors.Is(ferr, context.Canceled) {
+			ferr = nil
+		}
+		r.end(n, "follow", final, ferr)
+	}
+	r.opClose()
 }
